@@ -160,23 +160,37 @@ Definition assoc_eqb (a b : list (nat * nat)) : bool :=
   (length a =? length b) && forallb (fun p => Nat.eqb (fst (fst p)) (fst (snd p)) && Nat.eqb (snd (fst p)) (snd (snd p)))
                                     (combine a b).
 
+(* Table-based label propagation: the same computation as UFSpec.naive_min (|keys| rounds of "both ends
+   of every edge take the smaller label"), with the labels kept in an association list so that all
+   minima of a case are computed once (ComponentsProofs.min_table_naive_min: equal to naive_min). *)
+Definition ltab := list (nat * nat).
+Definition tget (t : ltab) (z : nat) : nat :=
+  match List.find (fun e => Nat.eqb (fst e) z) t with Some e => snd e | None => z end.
+Definition trelax1 (t : ltab) (e : nat * nat) : ltab :=
+  let m := Nat.min (tget t (fst e)) (tget t (snd e)) in
+  map (fun kv => if Nat.eqb (fst kv) (fst e) || Nat.eqb (fst kv) (snd e) then (fst kv, m) else kv) t.
+Definition trelax (ms : list (nat * nat)) (t : ltab) : ltab := fold_left trelax1 ms t.
+Fixpoint titer (n : nat) (ms : list (nat * nat)) (t : ltab) : ltab :=
+  match n with 0 => t | S n' => titer n' ms (trelax ms t) end.
+Definition min_table (keys : list nat) (ms : list (nat * nat)) : ltab :=
+  titer (length keys) ms (map (fun k => (k, k)) keys).
+Definition spec_table (P : list nat) (reads : list cread) (mb : option (list nat)) (het : option hetmap) : ltab :=
+  min_table (keys_of P) (spec_edges P reads mb het).
+
 (* L1: the returned dict (sorted by key) has exactly the keys of P and maps every position to the
-   minimum of its class under the closure of `linked` (naive label propagation, proved correct in
-   UFProofs.naive_min_is_component_min) *)
+   minimum of its class under the closure of `linked` *)
 Definition components_ok (P : list nat) (reads : list cread) (mb : option (list nat)) (het : option hetmap)
     (d : list (nat * nat)) : bool :=
-  let keys := keys_of P in
-  let E := spec_edges P reads mb het in
-  assoc_eqb d (map (fun p => (p, naive_min keys E p)) keys).
+  let t := spec_table P reads mb het in
+  assoc_eqb d (map (fun p => (p, tget t p)) (keys_of P)).
 
 (* the identifier the property demands for position p: 1 + genomic position of the leftmost variant of
    p's class *)
-Definition spec_block_id (gpos : list Z) (P : list nat) (reads : list cread) (mb : option (list nat))
-    (het : option hetmap) (p : nat) : Z :=
-  (nth (naive_min (keys_of P) (spec_edges P reads mb het) p) gpos 0 + 1)%Z.
+Definition spec_block_id (gpos : list Z) (t : ltab) (p : nat) : Z := (nth (tget t p) gpos 0 + 1)%Z.
 Definition ids_ok (gpos : list Z) (P : list nat) (reads : list cread) (mb : option (list nat))
     (het : option hetmap) (obs : list (nat * Z)) : bool :=
-  forallb (fun o => pmem (fst o) P && Z.eqb (snd o) (spec_block_id gpos P reads mb het (fst o))) obs.
+  let t := spec_table P reads mb het in
+  forallb (fun o => pmem (fst o) P && Z.eqb (snd o) (spec_block_id gpos t (fst o))) obs.
 
 (* L2: the model's answer *)
 Definition result_eqb (a b : list (nat * nat) + err) : bool :=
